@@ -1462,9 +1462,9 @@ func ruleClientResponseShape(p *Prog, r *Out) {
 			}
 		}
 		if statusIf != nil {
-			c.expr("status accepted exactly in 100..999", statusIf.Cond, fdeDomain{[]string{"err!=nil", "n"}, [][]int64{{0, 1}, {0, 7, 99, 100, 101, 200, 999, 1000, 12345}}}, nil, func(e fdeEnv) int64 {
-				return b2i(e["err!=nil"] != 0 || e["n"] < 100 || e["n"] > 999)
-			}, "err != nil || n < 100 || n > 999", "a :status is three digits; anything else is malformed, and every three-digit value is legal")
+			c.expr("status accepted exactly in 100..999", statusIf.Cond, fdeDomain{[]string{"err!=nil", "n", "len(hf.ValueBytes())"}, [][]int64{{0, 1}, {0, 7, 99, 100, 101, 200, 999, 1000, 12345}, {0, 2, 3, 4, 6}}}, nil, func(e fdeEnv) int64 {
+				return b2i(e["err!=nil"] != 0 || e["len(hf.ValueBytes())"] != 3 || e["n"] < 100 || e["n"] > 999)
+			}, "err != nil || len(value) != 3 || n < 100 || n > 999", "a :status is three digits (\"0200\" is a number in range and not a status); anything else is malformed, and every three-digit value from 100 up is legal")
 		} else {
 			r.bad("status accepted exactly in 100..999", c.pos, "no rejecting status-range test in readHeader")
 		}
